@@ -354,4 +354,36 @@ theorem sdist_arc_eq_src {T : Tree} {cfg : Cfg} {ig : List String} {B A : List S
       · simp at hp; subst hp; rfl
       · simp at hp
 
+/-! ### path-locality of globbing; the unpacked tree -/
+
+theorem mem_globFrom_iff {T : Tree} {base : Path} {pat : Pattern} {e : Entry} :
+    e ∈ globFrom T base pat ↔
+      isDirIn T base = true ∧ e ∈ T ∧ ∃ rel, stripBase base e.path = some rel ∧ globMatch pat rel e.isDir = true := by
+  unfold globFrom
+  by_cases hb : isDirIn T base = true
+  · simp only [hb, Bool.not_true, Bool.false_eq_true, if_false, mem_sortEntries, List.mem_filter, true_and]
+    constructor
+    · rintro ⟨h1, h2⟩
+      split at h2
+      · rename_i rel hrel; exact ⟨h1, rel, hrel, h2⟩
+      · simp at h2
+    · rintro ⟨h1, rel, hrel, h2⟩
+      exact ⟨h1, by simp [hrel, h2]⟩
+  · simp [hb]
+
+theorem mem_unpack {T : Tree} {S : List Sel} {txt : String} {e : Entry} :
+    e ∈ unpack T S txt ↔
+      (e ∈ T ∧ S.any (fun s => (stripBase e.path s.arc).isSome && (e.isDir || e.path == s.arc)) = true) ∨
+      e = { path := [Gen.sdistPkgInfoName], isDir := false, content := txt } := by
+  unfold unpack
+  simp only [List.mem_append, List.mem_filter, List.mem_singleton]
+
+theorem isDirIn_unpack {T : Tree} {S : List Sel} {txt : String} {p : Path}
+    (h : isDirIn (unpack T S txt) p = true) : isDirIn T p = true := by
+  unfold isDirIn at *
+  obtain ⟨e, he, hc⟩ := List.any_eq_true.mp h
+  rcases mem_unpack.mp he with ⟨heT, _⟩ | rfl
+  · exact List.any_eq_true.mpr ⟨e, heT, hc⟩
+  · simp at hc
+
 end Poetry.Select
